@@ -246,6 +246,16 @@ pub fn judge_halting(c: &Compiled, script: &[u8], canon: &Canon, known_hang: boo
             detail: p,
         });
     }
+    if let Some((not_opened, pos)) = r.err {
+        return Err(Failure {
+            class: "error".into(),
+            mode: mode_str(Mode::Limited(b0)),
+            observed: trace_str(&log),
+            expected: trace_str(expected),
+            first_diff: 0,
+            detail: format!("execution of a balanced program returned Err(loop_not_opened={not_opened}, position {pos})"),
+        });
+    }
     if r.finished == Some(true) && log == *expected {
         // the unlimited twin is safe to run in-process: its limited twin just terminated
         let (r2, log2) = run_logged(c, Mode::Execute, script, cap, Arm::default());
